@@ -535,7 +535,7 @@ pub fn run(ctx: &Ctx) -> Outcome {
         fixed.push(Case { ty: 5, own: 3, op: Op::SendPages, pages: vec![big, (30, 7, rand_image(&mut rng, 30, 7))], fail_attempts: 0, virtual_sign: true, auto: false, nack: None, prior: None, label: "page_of_65536_bytes" });
     }
     let nf = fixed.len();
-    let report = run_sharded(ctx, nf + rand_shards, |shard, rep| {
+    let mut report = run_sharded(ctx, nf + rand_shards, |shard, rep| {
         if shard < nf {
             run_case(&fixed[shard], rep);
         } else {
@@ -546,6 +546,12 @@ pub fn run(ctx: &Ctx) -> Outcome {
             }
         }
     });
+    {
+        // the same calls from a thread-local destructor while a thread exits (see exitprobe.rs)
+        let mut at_exit = Report::new();
+        crate::exitprobe::check("controller", "transfer_trace", &mut at_exit);
+        report.merge(at_exit);
+    }
     let att = |k: u64| report.sets.get("attempts_per_call").map(|s| s.contains(&k)).unwrap_or(false);
     let floors = vec![
         floor("all fixed cases ran (11 types x 4 addresses x 0..3 failing attempts x 2 sign sides x 2 operations)", report.get("cases/configure_all_types") == 352 && report.get("cases/send_pages_all_types") == 352, report.get("cases/send_pages_all_types")),
